@@ -40,7 +40,10 @@ func valOf(rv reflect.Value, lv int) *val.Val {
 		rt = rv.Type()
 	}
 	if rt == typeOfTime {
-		return val.Time(rv.Interface().(time.Time))
+		// an instant: drop the monotonic reading and present it in the local zone, like
+		// the times yae makes itself (strtotime, literals). Rendering and map keys use
+		// the zone, so equal instants given in different zones rendered and keyed differently
+		return val.Time(rv.Interface().(time.Time).Round(0).Local())
 	}
 
 	// 数字可能会丢失精度
